@@ -2,6 +2,7 @@ package props
 
 import (
 	"fmt"
+	"strings"
 	"unicode"
 	"unicode/utf8"
 
@@ -233,6 +234,39 @@ func c16Check(ctx *core.Ctx, kind, in string) {
 		if fr, _ := utf8.DecodeRuneInString(t.Val); !canStartToken(fr) {
 			ctx.Violate("c16:token-starts-with-bad-character:"+t.Typ.String(), "input %q: token %v %q at offset %d starts with %q (U+%04X), which cannot start a token; no lexical error was raised", in, t.Typ, t.Val, pos, string(fr), fr)
 			return
+		}
+		// an unterminated quote or regexp is a lexical error, never a token: a quoted token ends at
+		// the first matching quote, a regexp token at the first unescaped slash
+		switch t.Typ {
+		case lex.TQuoted:
+			q := t.Val[0]
+			if len(t.Val) < 2 || (q != '"' && q != '\'') || t.Val[len(t.Val)-1] != q || strings.IndexByte(t.Val[1:len(t.Val)-1], q) >= 0 {
+				ctx.Violate("c16:quoted-token-not-delimited", "input %q: quoted token %q at offset %d is not exactly one quote-delimited run", in, t.Val, pos)
+				return
+			}
+		case lex.TRegexp:
+			okRe := len(t.Val) >= 2 && t.Val[0] == '/' && t.Val[len(t.Val)-1] == '/'
+			if okRe {
+				esc := false
+				for i := 1; i < len(t.Val); i++ {
+					c := t.Val[i]
+					switch {
+					case esc:
+						esc = false
+						if i == len(t.Val)-1 {
+							okRe = false // the closing slash is escaped
+						}
+					case c == '\\':
+						esc = true
+					case c == '/' && i != len(t.Val)-1:
+						okRe = false
+					}
+				}
+			}
+			if !okRe {
+				ctx.Violate("c16:regexp-token-not-delimited", "input %q: regexp token %q at offset %d is not exactly one slash-delimited run", in, t.Val, pos)
+				return
+			}
 		}
 		pos += len(t.Val)
 	}
